@@ -7,13 +7,14 @@
 import GherkinVerif.Spec.TableEq
 import GherkinVerif.Gen.ParserTable
 import GherkinVerif.Gen.Siblings
+import GherkinVerif.KDecide
 namespace GV
 
-theorem C02_sibling_java : Spec.tableEq Gen.parserTable Gen.sibling_java = true := by decide +kernel
-theorem C02_sibling_go : Spec.tableEq Gen.parserTable Gen.sibling_go = true := by decide +kernel
-theorem C02_sibling_ruby : Spec.tableEq Gen.parserTable Gen.sibling_ruby = true := by decide +kernel
-theorem C02_sibling_c : Spec.tableEq Gen.parserTable Gen.sibling_c = true := by decide +kernel
-theorem C02_sibling_ts : Spec.tableEq Gen.parserTable Gen.sibling_ts = true := by decide +kernel
+theorem C02_sibling_java : Spec.tableEq Gen.parserTable Gen.sibling_java = true := by kdecide
+theorem C02_sibling_go : Spec.tableEq Gen.parserTable Gen.sibling_go = true := by kdecide
+theorem C02_sibling_ruby : Spec.tableEq Gen.parserTable Gen.sibling_ruby = true := by kdecide
+theorem C02_sibling_c : Spec.tableEq Gen.parserTable Gen.sibling_c = true := by kdecide
+theorem C02_sibling_ts : Spec.tableEq Gen.parserTable Gen.sibling_ts = true := by kdecide
 
 theorem C02_siblings_equal :
     Spec.tableEq Gen.parserTable Gen.sibling_java = true ∧ Spec.tableEq Gen.parserTable Gen.sibling_go = true ∧
